@@ -290,7 +290,10 @@ def run_check(prop, tier, seed, replay=None):
     known = load_known(prop)
     known_reported = []
     try:
-        have_driver = os.path.exists(os.path.join(BUILD, 'driver')) and b['ok']
+        # when the Coq development no longer compiles (e.g. a regenerated table breaks a proof) the
+        # driver extracted from the last model that satisfied the theorems is still there: use it as
+        # the reference to search for an input on which the property now fails
+        have_driver = os.path.exists(os.path.join(BUILD, 'driver')) and (b['ok'] or b['stage'] == 'coq')
         streams = cfg['streams']
         jobs = []
         if replay:
